@@ -29,6 +29,8 @@ def correspondence(ctx):
         rng.shuffle(objs)
         model = combine(objs, name=f'nl{mi}')
         ss = model.steady_state({f'x{k}': v for k, v in spec['calib'].items()})
+        use_initial = rng.random() < 0.4
+        ss0 = model.steady_state({f'x{k}': v for k, v in spec['calib0'].items()}) if use_initial else None
         U, Tg, T, N = [f'x{u}' for u in spec['U']], [f'x{t}' for t in spec['Tg']], spec['T'], spec['N']
         shocks = {f'x{z}': np.array(p) for z, p in spec['shocks'].items()}
         trace = []
@@ -41,13 +43,14 @@ def correspondence(ctx):
         model.impulse_nonlinear = spy
         outcome, ret = 'converged', None
         try:
-            ret = model.solve_impulse_nonlinear(ss, U, Tg, shocks, options={model.name: dict(tol=tol, maxit=maxit, verbose=False)})
+            ret = model.solve_impulse_nonlinear(ss, U, Tg, shocks, options={model.name: dict(tol=tol, maxit=maxit, verbose=False)}, **({} if ss0 is None else dict(ss_initial=ss0)))
         except ValueError as ex:
             outcome = 'raised' if 'No convergence' in str(ex) else f'raised {ex}'
         except Exception as ex:
             outcome = f'raised {type(ex).__name__}: {ex}'
         del model.impulse_nonlinear
-        case = dict(spec={k: v for k, v in spec.items()}, listing=[o.name for o in objs], outcome=outcome, iterations=len(trace))
+        case = dict(spec={k: v for k, v in spec.items()}, listing=[o.name for o in objs], outcome=outcome, iterations=len(trace), distinct_initial_steady_state=use_initial)
+        stats['distinct_initial'] = stats.get('distinct_initial', 0) + int(use_initial)
         if outcome not in ('converged', 'raised') or not trace:
             dis.append(dict(what='solve_impulse_nonlinear on a generated polynomial model failed unexpectedly', case=case))
             continue
@@ -63,7 +66,7 @@ def correspondence(ctx):
             dis.append(dict(what='solve_impulse_nonlinear does not start from U = 0 / alters the shocks between iterations', case=case))
         for k in pick:
             Uk = [trace[k][0][u] for u in U]
-            exprs.append(f'run_nl_step false {N} {T}%Z {NL.coq_tbl(ss, N)} {NL.coq_tbl(ss, N)} {prog} {C.coq_list([int(u[1:]) for u in U], str)} {C.coq_list([int(t[1:]) for t in Tg], str)} '
+            exprs.append(f'run_nl_step {"true" if use_initial else "false"} {N} {T}%Z {NL.coq_tbl(ss, N)} {NL.coq_tbl(ss0 if use_initial else ss, N)} {prog} {C.coq_list([int(u[1:]) for u in U], str)} {C.coq_list([int(t[1:]) for t in Tg], str)} '
                          f'{NL.coq_devs([(int(z[1:]), p) for z, p in shocks.items()])} {NL.qf(tol)} {C.coq_list(Uk, lambda p: C.coq_list(p, NL.qf))} {C.coq_list(outs, str)}')
             meta.append((case, k, trace, outs, U, Tg, ret, outcome))
     vals, logs = C.eval_in_coq('C06', NL.HEADER, exprs, chunk=4, tag='nl')
@@ -108,7 +111,7 @@ def correspondence(ctx):
         dis.append(dict(what='coq evaluation failed', log=l))
     return dict(evaluations=len(exprs), distinct_nontrivial=len({C.canon(m[0]['spec']) for m in meta}),
                 rule='generated general-equilibrium models of polynomial @simple blocks (degree <= 3, leads/lags |k| <= 2 incl. nested, 1-2 shocked inputs, 1-3 unknowns, horizons 3-6, '
-                     'shuffled listing): solve_impulse_nonlinear (tol 2^-27, maxit 12) observed iteration by iteration; the first two and the last iteration are replayed in Coq from the '
+                     'shuffled listing, unshocked parameters, sometimes a block reading parameters only; 40% started from a distinct initial steady state): solve_impulse_nonlinear (tol 2^-27, maxit 12) observed iteration by iteration; the first two and the last iteration are replayed in Coq from the '
                      "implementation's iterate: deviations of every returned variable (1e-11), stopping decision, next iterate U - H_U^{-1} residual (1e-9), returned paths = last iterate/evaluation; "
                      'runs that end in the documented no-convergence error are replayed as well (decision must be "continue" at every iteration)',
                 samples=[dict(blocks=[[NL.py(e) for _, e in b['outs']] for b in specs[0]['blocks']], unknowns=specs[0]['U'], targets=specs[0]['Tg'], T=specs[0]['T'])],
@@ -265,9 +268,43 @@ def check(rng, override=None):
     return out, n
 
 
+def initial_ss_unperturbed_block():
+    """a model with a block none of whose inputs is shocked (it reads a parameter only), started from an initial steady state with another value of that parameter:
+    the transition of that block's outputs (lagged parameter) must be honoured; reference = the equations evaluated by hand"""
+    import os, sys, importlib
+    d = os.path.join(C.WORK, 'models')
+    os.makedirs(d, exist_ok=True)
+    with open(os.path.join(d, 'verif_c06_par.py'), 'w') as f:
+        f.write('from sequence_jacobian import simple\n\n@simple\ndef pa(x, p):\n    y = x + p(-1)\n    return y\n\n@simple\ndef pb(p):\n    q = 2 * p(-1)\n    return q\n\n'
+                '@simple\ndef pc(y, q):\n    z = y + q\n    return z\n')
+    if d not in sys.path:
+        sys.path.insert(0, d)
+    importlib.invalidate_caches()
+    sys.modules.pop('verif_c06_par', None)
+    pm = importlib.import_module('verif_c06_par')
+    from sequence_jacobian import combine
+    model = combine([pa_ for pa_ in (pm.pa, pm.pb, pm.pc)], name='par_model')
+    ss, ss0 = model.steady_state({'x': 1.0, 'p': 1.0}), model.steady_state({'x': 1.0, 'p': 2.0})
+    inp = dict(kind='initial-ss-unperturbed-block', blocks=['y = x + p(-1)', 'q = 2 * p(-1)', 'z = y + q'], ss=dict(x=1.0, p=1.0), ss_initial=dict(x=1.0, p=2.0), shock=dict(x=[0.125, 0.0, 0.0]))
+    sig = dict(op='ss_initial-unperturbed-block')
+    try:
+        td = model.impulse_nonlinear(ss, {'x': np.array([0.125, 0.0, 0.0])}, ss_initial=ss0)
+    except Exception as ex:
+        return dict(what=f'impulse_nonlinear from a distinct initial steady state raises {type(ex).__name__} ({ex}) when the model has a block none of whose inputs is shocked', input=inp, signature=sig)
+    want = dict(y=[1.125, 0.0, 0.0], q=[2.0, 0.0, 0.0], z=[3.125, 0.0, 0.0])
+    bad = [k for k, v in want.items() if k not in td.toplevel or np.abs(td[k] - np.array(v)).max() > 1e-12]
+    if bad:
+        return dict(what='the transition from a distinct initial steady state is not honoured for a block none of whose inputs is shocked', input=dict(inp, outputs=bad), signature=sig)
+    return None
+
+
 def oracle(ctx, hints, broken):
     try:
         viol, n = check(ctx['rng'])
+        v24 = initial_ss_unperturbed_block()
+        n += 1
+        if v24:
+            viol.append(v24)
         import io, contextlib
         with contextlib.redirect_stdout(io.StringIO()):
             ve, ne = M.check_examples(['rbc', 'krusell_smith', 'hank'] if ctx['tier'] == 'thorough' or broken else ['rbc'], 'nl')
